@@ -9,7 +9,7 @@ from __future__ import annotations
 import ast
 from typing import Dict, List, Optional, Set, Tuple
 
-from ..cfg import CFG, EXIT, path_conditions
+from ..cfg import CFG, EXIT, path_conditions, symbolic_block_paths
 from ..exprnorm import conj_test, Poly, Rat, norm_test, normalize
 from ..report import Run
 from ..src import (AnalysisError, ClassInfo, FuncInfo, Program, attr_chain, call_name, stmt_key,
@@ -614,9 +614,13 @@ def _same_walk(prog: Program, run: Run) -> None:
                       enc.loc)
     # every parameter of the decoder loop is decoded and stored under its short name
     l = [l for l in walk_no_nested(dec.node) if isinstance(l, ast.For)][0]
-    s = ast.unparse(l)
-    if "param.decode_from_pdu(decode_state)" in s and "result[param.short_name] = value" in s and \
-            not any(isinstance(x, (ast.Continue, ast.Break, ast.If)) for x in ast.walk(l)):
+    pvn = ast.unparse(l.target)
+    stp = dec.params()[-1]
+    iter_paths = symbolic_block_paths(l.body)
+    want_store = f"{pvn}.decode_from_pdu({stp})"
+    if iter_paths and all(p_.ret is None and any(
+            tg.endswith(f"[{pvn}.short_name]") and ast.unparse(v) == want_store
+            for tg, v in p_.stores) for p_ in iter_paths):
         run.ok(R, dec.qual, "every parameter is decoded and stored under its short name", dec.loc)
     else:
         run.violation(R, dec.qual, "decoder-skips",
